@@ -313,6 +313,36 @@ def cmp_atom(op, a, b):
     return SymEval(None).arith(op.capitalize(), a, b)
 
 
+def canon_cond(c, pol=True, total=False):
+    """canonical (condition, polarity): not(x) unfolds, ne -> eq with flipped polarity (also for overloaded ==/!=), and for
+    totally ordered operands (total=True: integers) le(a,b) -> lt(b,a) with flipped polarity"""
+    while isinstance(c, Poly):
+        a = single_atom(c)
+        if a is None:
+            break
+        fn = atom_fn(a)
+        if fn == "not" and isinstance(atom_args(a)[0], Poly):
+            c, pol = atom_args(a)[0], not pol
+            continue
+        if fn in ("ne", "op_ne"):
+            x, y = atom_args(a)
+            if order_of(vkey(x)) > order_of(vkey(y)):
+                x, y = y, x
+            c, pol = app("eq" if fn == "ne" else "op_eq", x, y), not pol
+            continue
+        if fn == "op_eq":
+            x, y = atom_args(a)
+            if order_of(vkey(x)) > order_of(vkey(y)):
+                c = app("op_eq", y, x)
+            break
+        if fn == "le" and total:
+            x, y = atom_args(a)
+            c, pol = app("lt", y, x), not pol
+            continue
+        break
+    return c, pol
+
+
 def split_signed(v):
     """v == sum of +-1 * atom terms -> (plus atoms, minus atoms) or None"""
     if not isinstance(v, Poly):
@@ -667,6 +697,9 @@ class SymEval:
         return ("struct", n.get("def", "?").rsplit("::", 1)[-1], {f["name"]: self.eval(f["e"], env) for f in n["fields"]})
 
     def e_closure(self, n, env):
+        if not hasattr(self, "closure_envs"):
+            self.closure_envs = {}
+        self.closure_envs[n.get("def")] = dict(env)
         return ("closure", n, dict(env))
 
     def e_block(self, n, env):
@@ -799,10 +832,19 @@ class SymEval:
             self.depth -= 1
             self._blk = saved
 
+    NDARRAY_DIM = "ndarray::impl_methods::<impl ndarray::ArrayBase<S, D>>::dim"
+
     def call_opaque(self, path, args):
         base = path.rsplit("::", 1)[-1] if path else "?"
         if base in ("Ok", "Some", "Err") and len(args) == 1 and path.startswith("std::prelude"):
             return ("ctor", base, args)
+        if base in ("nrows", "ncols") and path.startswith("ndarray::") and len(args) == 1:
+            # 2-D shape accessors are projections of dim(): one spelling for both
+            d = self.call_opaque(self.NDARRAY_DIM, args)
+            i = 0 if base == "nrows" else 1
+            if isinstance(d, tuple) and d and d[0] == "tuple" and len(d[1]) == 2:
+                return d[1][i]
+            return app("proj%d" % i, d)
         return app(path, *args)
 
     def e_call(self, n, env):
